@@ -531,7 +531,7 @@ fn run_shard(ctx: &mut Ctx) {
     let d2 = dir.clone();
     let decode = |cs: &Vec<u32>| -> (Vec<Op>, Option<u64>) {
         let mut s = Src::new(cs);
-        let limit = if s.below(12) == 0 { Some(40u64) } else { None };
+        let limit = if s.below(12) == 0 { Some(120u64) } else { None };
         (gen_history(&mut s, limit.is_some()), limit)
     };
     let shrink_dir = dir.clone();
@@ -539,7 +539,7 @@ fn run_shard(ctx: &mut Ctx) {
         // drop operations while the same signature class persists
         let (mut ops, limit) = {
             let mut s = Src::new(cs);
-            let limit = if s.below(12) == 0 { Some(40u64) } else { None };
+            let limit = if s.below(12) == 0 { Some(120u64) } else { None };
             (gen_history(&mut s, limit.is_some()), limit)
         };
         let mut fail = f.clone();
@@ -585,7 +585,7 @@ fn run_shard(ctx: &mut Ctx) {
             if !ctx.mine(idx) {
                 continue;
             }
-            let limit = if carriers()[c].0.starts_with("timeout") { Some(40) } else { None };
+            let limit = if carriers()[c].0.starts_with("timeout") { Some(120) } else { None };
             if limit.is_some() && ctx.quick() && !matches!(f, Op::RunOk(_)) {
                 continue;
             }
